@@ -62,6 +62,7 @@ func consultsInSends(w *core.World, r *core.Report, rule string, fn *ssa.Functio
 const kLVGHP = "tree.LeafVariants.GetHighestPrecedence"
 
 func c04(w *core.World, r *core.Report) {
+	setWordBits(w)
 	validate := w.Func("pkg/tree", "sharedEntryAttributes", "Validate")
 	rootValidate := w.Func("pkg/tree", "RootEntry", "Validate")
 	loadHigh := w.Func("pkg/datastore", "", "loadIntendedStoreHighestPrio")
